@@ -122,6 +122,7 @@ theorem RRel.retWrap {N : NumOps} {Q : QRel} {β : Inj N} {D' : List DName} {r r
         | .timeout => .timeout) := by
   intro hr
   cases r <;> cases r' <;> simp only [RRel] at hr
+  any_goals (first | exact RRel.timeout_right hr _ | exact RRel.timeout_left hr _ | exact True.intro)
   · obtain ⟨β1, hle, ha, h⟩ := hr
     rename_i c _ c' _
     cases c <;> cases c' <;> simp only [ACtl] at ha
@@ -131,9 +132,6 @@ theorem RRel.retWrap {N : NumOps} {Q : QRel} {β : Inj N} {D' : List DName} {r r
     · exact RRel.mono hle (RRel.ok (A := AVs) ha h)
   · obtain ⟨β1, hle, hv, h⟩ := hr
     exact RRel.mono hle (RRel.err hv h)
-  · exact RRel.timeout_left hr _
-  · exact RRel.timeout_left hr _
-  · trivial
 
 /-- every call level respects the relation -/
 theorem callClosure_ok {N : NumOps} (ρ : ExtOracle N) (hρ : OracleFlat ρ)
@@ -220,7 +218,43 @@ theorem SRel.init {N : NumOps} (Q : QRel) (externs : List String)
   pinR := fun _ hp => by cases hp
   pinT := fun _ hp => by cases hp
   pinC := fun _ hp => by cases hp
+  pinTl := fun _ hp => by cases hp
+  pinCl := fun _ hp => by cases hp
   inv := hI
+
+/-- **change of context / closure-body relation** while no closures are related yet (e.g. right after the two
+one-sided preludes of a bundle have been run under the trivial context): only the consumer's invariant of the
+new context has to be established -/
+theorem SRel.rebase {N : NumOps} {Q Q' : QRel} {cx' : Cx} {β : Inj N} {σ σ' : State N} (h : SRel Q cx β σ σ')
+    (hf : ∀ a b, ¬ β.f a b) (hI : cx'.I N β σ σ') : SRel Q' cx' β σ σ' where
+  globals := h.globals
+  trace := h.trace
+  injC := h.injC
+  injT := h.injT
+  injF := h.injF
+  cell := h.cell
+  tbl := h.tbl
+  clo := fun hab => absurd hab (hf _ _)
+  strlib := h.strlib
+  front := h.front
+  pin := h.pin
+  pinR := h.pinR
+  pinT := h.pinT
+  pinC := h.pinC
+  pinTl := h.pinTl
+  pinCl := h.pinCl
+  inv := hI
+
+/-- what `runChunk` makes of the control result of its block -/
+def wrapCtl {N : NumOps} (r : Res N (Ctl N)) : Res N (List (Val N)) :=
+  match r with
+  | .ok (.ret vs) σ2 => .ok vs σ2
+  | .ok _ σ2 => .ok [] σ2
+  | .err v σ2 => .err v σ2
+  | .timeout => .timeout
+
+theorem runChunk_eq_wrapCtl {N : NumOps} (ρ : ExtOracle N) (n : Nat) (b : Block) (σ : State N) :
+    runChunk ρ n b σ = wrapCtl (execB (callClosure ρ n) ρ n ⟨[], []⟩ b σ) := rfl
 
 theorem runChunk_rel {N : NumOps} (ρ : ExtOracle N) (hρ : OracleFlat ρ) (hCF : ∀ n, cx.CF N ρ n (callClosure ρ n))
     (n : Nat) {b b' : Block} {D' : List DName} (h : VR cx [] (.b b) (.b b') D') {β : Inj N} {σ σ' : State N} (hs : SRel (VQ cx) cx β σ σ') :
@@ -230,49 +264,95 @@ theorem runChunk_rel {N : NumOps} (ρ : ExtOracle N) (hρ : OracleFlat ρ) (hCF 
     ⟨.nil, fun _ _ => by simp only [lookupAssoc, OptRel]⟩)
 
 theorem observe_rel {N : NumOps} {β : Inj N} {r r' : Res N (List (Val N))} (h : RRel (VQ cx) cx β AVs r r') :
-    (cx.upto = true ∧ observe r = .timeout) ∨ observe r' = observe r := by
+    (cx.upto = true ∧ observe r = .timeout) ∨ (cx.uptoR = true ∧ observe r' = .timeout) ∨ observe r' = observe r := by
   cases r <;> cases r' <;> simp only [RRel] at h
   · obtain ⟨β1, _, ha, hs⟩ := h
-    right; simp only [observe, hs.trace, hs.canonList ha]
+    right; right; simp only [observe, hs.trace, hs.canonList ha]
+  · exact .inr (.inl ⟨h, rfl⟩)
   · obtain ⟨β1, _, hv, hs⟩ := h
-    right; simp only [observe, hs.trace, hs.canon hv]
+    right; right; simp only [observe, hs.trace, hs.canon hv]
+  · exact .inr (.inl ⟨h, rfl⟩)
   · exact .inl ⟨h, rfl⟩
   · exact .inl ⟨h, rfl⟩
-  · exact .inr rfl
+  · exact .inr (.inr rfl)
 
-/-- **Observational refinement, general form**: `VR`-related chunks have the same outcome from related states —
-or (only when `cx.upto`) the original exhausts its budget -/
-theorem runChunk_vr' {N : NumOps} (ρ : ExtOracle N) (hρ : OracleFlat ρ) (hCF : ∀ n, cx.CF N ρ n (callClosure ρ n))
+/-- **outcome of two blocks related by `SoundB`, run from GIVEN environments and states** (the rest of a program
+after both sides have executed their own preludes): the final-theorem form of `runChunk_vr''` without the empty
+initial environment -/
+theorem observe_of_soundB {N : NumOps} {D D' : List DName} {b b' : Block} (h : SoundB (VQ cx) cx D b b' D')
+    (ρ : ExtOracle N) (hρ : OracleFlat ρ) (hCF : ∀ n, cx.CF N ρ n (callClosure ρ n)) (n : Nat) {β : Inj N}
+    {env env' : Env N} {σ σ' : State N} (hs : SRel (VQ cx) cx β σ σ') (he : EnvOK β D env env') :
+    (cx.upto = true ∧ observe (wrapCtl (execB (callClosure ρ n) ρ n env b σ)) = .timeout) ∨
+      (cx.uptoR = true ∧ observe (wrapCtl (execB (callClosure ρ n) ρ n env' b' σ')) = .timeout) ∨
+      observe (wrapCtl (execB (callClosure ρ n) ρ n env' b' σ')) =
+        observe (wrapCtl (execB (callClosure ρ n) ρ n env b σ)) :=
+  observe_rel (RRel.retWrap (h.2 N _ ρ n env env' σ σ' β ⟨hCF n, callClosure_ok ρ hρ hCF n, hρ⟩ hs he))
+
+/-- **Observational refinement, most general form**: same outcome, or (only when `cx.upto`) the original exhausts
+its budget, or (only when `cx.uptoR`) the rewritten program does -/
+theorem runChunk_vr'' {N : NumOps} (ρ : ExtOracle N) (hρ : OracleFlat ρ) (hCF : ∀ n, cx.CF N ρ n (callClosure ρ n))
     (n : Nat) {b b' : Block} {D' : List DName} (h : VR cx [] (.b b) (.b b') D') {β : Inj N} {σ σ' : State N}
     (hs : SRel (VQ cx) cx β σ σ') :
     (cx.upto = true ∧ observe (runChunk ρ n b σ) = .timeout) ∨
+      (cx.uptoR = true ∧ observe (runChunk ρ n b' σ') = .timeout) ∨
       observe (runChunk ρ n b' σ') = observe (runChunk ρ n b σ) :=
   observe_rel (runChunk_rel ρ hρ hCF n h hs)
+
+/-- contexts without `uptoR`: same outcome — or (only when `cx.upto`) the original exhausts its budget -/
+theorem runChunk_vr' {N : NumOps} (ρ : ExtOracle N) (hρ : OracleFlat ρ) (hCF : ∀ n, cx.CF N ρ n (callClosure ρ n))
+    (n : Nat) {b b' : Block} {D' : List DName} (h : VR cx [] (.b b) (.b b') D') {β : Inj N} {σ σ' : State N}
+    (hs : SRel (VQ cx) cx β σ σ') (hur : cx.uptoR = false := by rfl) :
+    (cx.upto = true ∧ observe (runChunk ρ n b σ) = .timeout) ∨
+      observe (runChunk ρ n b' σ') = observe (runChunk ρ n b σ) := by
+  rcases runChunk_vr'' ρ hρ hCF n h hs with h1 | ⟨h2, _⟩ | h3
+  · exact .inl h1
+  · rw [hur] at h2; cases h2
+  · exact .inr h3
+
+/-- contexts without `upto`: same outcome — or (only when `cx.uptoR`) the REWRITTEN program exhausts its budget -/
+theorem runChunk_vrR {N : NumOps} (ρ : ExtOracle N) (hρ : OracleFlat ρ) (hCF : ∀ n, cx.CF N ρ n (callClosure ρ n))
+    (n : Nat) {b b' : Block} {D' : List DName} (h : VR cx [] (.b b) (.b b') D') {β : Inj N} {σ σ' : State N}
+    (hs : SRel (VQ cx) cx β σ σ') (hu : cx.upto = false := by rfl) :
+    observe (runChunk ρ n b' σ') = .timeout ∨ observe (runChunk ρ n b' σ') = observe (runChunk ρ n b σ) := by
+  rcases runChunk_vr'' ρ hρ hCF n h hs with ⟨h1, _⟩ | ⟨_, h2⟩ | h3
+  · rw [hu] at h1; cases h1
+  · exact .inl h2
+  · exact .inr h3
 
 /-- exact contexts: equality -/
 theorem runChunk_vr {N : NumOps} (ρ : ExtOracle N) (hρ : OracleFlat ρ) (n : Nat) {b b' : Block} {D' : List DName}
     (h : VR cx [] (.b b) (.b b') D') {β : Inj N} {σ σ' : State N} (hs : SRel (VQ cx) cx β σ σ')
-    (hu : cx.upto = false := by rfl) (hCF : ∀ n, cx.CF N ρ n (callClosure ρ n) := by intros; trivial) :
+    (hu : cx.upto = false := by rfl) (hCF : ∀ n, cx.CF N ρ n (callClosure ρ n) := by intros; trivial)
+    (hur : cx.uptoR = false := by rfl) :
     observe (runChunk ρ n b' σ') = observe (runChunk ρ n b σ) := by
-  rcases runChunk_vr' ρ hρ hCF n h hs with ⟨h1, _⟩ | h2
+  rcases runChunk_vr' ρ hρ hCF n h hs hur with ⟨h1, _⟩ | h2
   · rw [hu] at h1; cases h1
   · exact h2
 
 theorem runProgram_vr {N : NumOps} (ρ : ExtOracle N) (hρ : OracleFlat ρ) (n : Nat) (externs : List String)
     {b b' : Block} {D' : List DName} (h : VR cx [] (.b b) (.b b') D')
     (hI : cx.I N initRel (initState externs : State N) (initState externs) := by trivial)
-    (hu : cx.upto = false := by rfl) (hCF : ∀ n, cx.CF N ρ n (callClosure ρ n) := by intros; trivial) :
+    (hu : cx.upto = false := by rfl) (hCF : ∀ n, cx.CF N ρ n (callClosure ρ n) := by intros; trivial)
+    (hur : cx.uptoR = false := by rfl) :
     runProgram ρ n externs b' = runProgram ρ n externs b :=
-  runChunk_vr ρ hρ n h (SRel.init (VQ cx) externs hI) hu hCF
+  runChunk_vr ρ hρ n h (SRel.init (VQ cx) externs hI) hu hCF hur
 
 /-- up-to-timeout contexts: same outcome unless the original exhausts its budget -/
 theorem runProgram_vr_upto {N : NumOps} (ρ : ExtOracle N) (hρ : OracleFlat ρ) (n : Nat) (externs : List String)
     {b b' : Block} {D' : List DName} (h : VR cx [] (.b b) (.b b') D')
     (hI : cx.I N initRel (initState externs : State N) (initState externs) := by trivial)
-    (hCF : ∀ n, cx.CF N ρ n (callClosure ρ n) := by intros; trivial) :
+    (hCF : ∀ n, cx.CF N ρ n (callClosure ρ n) := by intros; trivial) (hur : cx.uptoR = false := by rfl) :
     runProgram ρ n externs b = .timeout ∨ runProgram ρ n externs b' = runProgram ρ n externs b := by
-  rcases runChunk_vr' ρ hρ hCF n h (SRel.init (VQ cx) externs hI) with ⟨_, h1⟩ | h2
+  rcases runChunk_vr' ρ hρ hCF n h (SRel.init (VQ cx) externs hI) hur with ⟨_, h1⟩ | h2
   · exact .inl h1
   · exact .inr h2
+
+/-- `uptoR` contexts: same outcome unless the REWRITTEN program exhausts its budget -/
+theorem runProgram_vr_uptoR {N : NumOps} (ρ : ExtOracle N) (hρ : OracleFlat ρ) (n : Nat) (externs : List String)
+    {b b' : Block} {D' : List DName} (h : VR cx [] (.b b) (.b b') D')
+    (hI : cx.I N initRel (initState externs : State N) (initState externs) := by trivial)
+    (hCF : ∀ n, cx.CF N ρ n (callClosure ρ n) := by intros; trivial) (hu : cx.upto = false := by rfl) :
+    runProgram ρ n externs b' = .timeout ∨ runProgram ρ n externs b' = runProgram ρ n externs b :=
+  runChunk_vrR ρ hρ hCF n h (SRel.init (VQ cx) externs hI) hu
 
 end DarkluaModel.Sem.HeapU
